@@ -150,8 +150,16 @@ class Factoring:
                 b = rng.randrange(a + 1, len(val) + 1)
                 pre, mid, post = val[:a], val[a:b], val[b:]
                 if mid and (pre or post):
+                    body = mid
+                    if kind == "rule" and rng.random() < 0.25:
+                        # the body of a string macro is a piece of regex text: written with escapes (\\d, \\w, \\x41, \\b) it must arrive in
+                        # the name exactly as written - the inlined twin carries the same characters
+                        body = "".join((rng.choice(["\\d", "[\\da-f]"]) if c.isdigit() else rng.choice(["\\w", "[a-z]", "\\x%02x" % ord(c)]) if c.isalpha() else c)
+                                       for c in mid) + rng.choice(["", "", "\\b" if not post else ""])
+                        _set(self.inl, path, pre + body + post)
+                        self.forms.append("substring:regex-escapes-in-body")
                     _set(tree, path, pre + name + post)
-                    self.macros.append({"name": name, "pattern": mid})
+                    self.macros.append({"name": name, "pattern": body})
                     self.forms.append("substring")
                     return True
             if form == "value" and isinstance(parent, dict) and not in_list and isinstance(val, str) and plain(val):
